@@ -1,7 +1,9 @@
+mod alloc;
 mod auth;
 mod checks;
 mod common;
 mod journal;
+mod sched;
 mod sim;
 mod stream;
 
@@ -24,6 +26,8 @@ fn main() {
                     checks::check_sim(&prop, &tier)
                 }
                 "C10" | "C11" | "C12" => journal::check(&prop, &tier),
+                "C15" | "C05static" => sched::check(&prop, &tier),
+                "C16" | "C04alloc" => alloc::check(&prop, &tier),
                 "C19" => stream::check(&prop, &tier),
                 "C20" => auth::check(&prop, &tier),
                 _ => {
@@ -33,6 +37,8 @@ fn main() {
             }
         }
         Some("replay") => checks::replay_file(&args[2]),
+        Some("alloc-dev") => alloc::dev(&args[2..]),
+        Some("alloc-worker") => alloc::worker(&args[2..]),
         Some("sim") => cmd_sim(&args[2..]),
         Some("bench") => cmd_bench(&args[2..]),
         Some("trace") => cmd_trace(&args[2..]),
